@@ -1118,13 +1118,19 @@ class TensorDict(TensorDictBase):
                 # dim=None without keepdim: torch reduces every dim
                 batch_size = []
 
-            return self._fast_apply(
+            result = self._fast_apply(
                 reduction,
                 call_on_nested=call_on_nested,
                 batch_size=torch.Size(batch_size),
                 device=self.device,
                 names=names,
             )
+            if names and not call_on_nested and result is not None:
+                # the nested results are created under a batch_size override, which erases
+                # their dim names: they follow the root's, as when the reduction is called
+                # on the nested tensordicts themselves
+                result.names = names
+            return result
 
         def reduction(val):
             return getattr(val, reduction_name)(**kwargs)
